@@ -4,12 +4,14 @@ pub mod c02;
 pub mod c03;
 pub mod c04;
 pub mod c05;
+pub mod c07;
 pub mod c08;
 pub mod c09;
 pub mod c11;
 pub mod c12;
 pub mod c13;
 pub mod c14;
+pub mod c15;
 pub mod common;
 pub mod c16;
 pub mod c18;
@@ -26,12 +28,14 @@ pub fn run(property: &str, ctx: &Ctx) -> Option<Report> {
         "C05" => c05::run_which(ctx, c05::Which::C05),
         "C06" => c05::run_which(ctx, c05::Which::C06),
         "C17" => c05::run_which(ctx, c05::Which::C17),
+        "C07" => c07::run(ctx),
         "C08" => c08::run(ctx),
         "C09" => c09::run(ctx),
         "C11" => c11::run(ctx),
         "C12" => c12::run(ctx),
         "C13" => c13::run(ctx),
         "C14" => c14::run(ctx),
+        "C15" => c15::run(ctx),
         "C16" => c16::run(ctx),
         "C18" => c18::run(ctx),
         "C20" => c20::run(ctx),
